@@ -341,6 +341,13 @@ def inputs(ctx, budget_mult=1):
     for i in range(n_frag):
         text, _rule = docgen.gen_fragment(rng)
         yield ('gen_fragment', text, lr.TARGETS)
+        if i % 2 == 0:
+            # a comment and a line break right after a punctuation / operator character (inside inline models the parser
+            # cannot take the comment there: it stays a gap token and must still be in the store)
+            spots = [k for k, ch in enumerate(text) if ch in '{,(+-*/~#@' and k + 1 < len(text)]
+            if spots:
+                k = rng.choice(spots)
+                yield ('gen_fragment_commented', text[:k + 1] + rng.choice([' ; note\n', ';x\n  ', ' ;\n\t']) + text[k + 1:], lr.TARGETS)
         if i % 3 == 0 and '\n' in text or text[:1] in ' \t':
             # near-valid: the indentation of one line is removed / added.  Most of these are rejected; whatever the parser
             # accepts must round-trip like any other accepted text (a builder that starts to accept more is judged on it)
